@@ -118,8 +118,10 @@ func onesOf(shape []int, tracked bool) tensor.Tensor {
 }
 
 // doBad performs the invalid call once. x may be nil (fresh operands only).
-// what describes the call for messages.
-func doBad(tag string, n int, x tensor.Tensor) (got tensor.Tensor, err error, what string) {
+// what describes the call for messages; trace is non-empty when the rejected
+// call visibly changed something of the caller's. What a rejected call returns
+// besides its error is not judged (no property says anything about it).
+func doBad(tag string, n int, x tensor.Tensor) (got tensor.Tensor, err error, what string, trace string) {
 	if n < 0 {
 		n = -n
 	}
@@ -361,7 +363,7 @@ func doBad(tag string, n int, x tensor.Tensor) (got tensor.Tensor, err error, wh
 		t := x
 		err = optimizers.NewSGD(nil).Update(&t)
 		if err != nil && t != x {
-			got = t // the rejected call rewrote the caller's pointer
+			trace = "the rejected Update replaced the tensor behind the caller's pointer"
 		}
 	case "creator-shape":
 		d := [][]int{{0}, {2, 0}, {-1, 2}, {3, -2}}[n%4]
@@ -403,33 +405,30 @@ func doBad(tag string, n int, x tensor.Tensor) (got tensor.Tensor, err error, wh
 			got, err = tensor.RandN([]int{2, 3}, 1, -1, conf)
 		}
 	default:
-		return nil, fmt.Errorf("harness: unknown invalid-call kind %q", tag), "unknown"
+		return nil, fmt.Errorf("harness: unknown invalid-call kind %q", tag), "unknown", ""
 	}
-	return got, err, what
+	return got, err, what, trace
 }
 
 // badVerdict runs the invalid call twice and judges what a rejected call may
 // be judged on without knowing the caller's state: an error both times, with
-// the same words, and no result. It returns the oracle name and message of a
+// the same words. It returns the oracle name and message of a
 // failure, or "", the words of the error, and the error value itself (which
 // must keep reading the same for as long as the caller holds it).
 func badVerdict(tag string, n int, x tensor.Tensor) (oracle, msg, errText string, held error) {
-	got, err, what := doBad(tag, n, x)
+	_, err, what, trace := doBad(tag, n, x)
 	if what == "unknown" {
 		return "harness", err.Error(), "", nil
 	}
 	if err == nil {
 		return "invalid-call-accepted", fmt.Sprintf("%s returned no error", what), "", nil
 	}
-	if got != nil {
-		return "invalid-call-result", fmt.Sprintf("%s was rejected (%v) but returned a result besides the error", what, err), err.Error(), err
+	if trace != "" {
+		return "rejected-call-changed-state", fmt.Sprintf("%s was rejected (%v): %s", what, err, trace), err.Error(), err
 	}
 	first := err.Error()
-	got2, err2, _ := doBad(tag, n, x)
+	_, err2, _, _ := doBad(tag, n, x)
 	if err2 == nil {
-		if got2 != nil {
-			return "rejected-call-accepted-when-repeated", fmt.Sprintf("%s was rejected the first time (%s) and returned a result without error when repeated at once", what, first), first, err
-		}
 		return "rejected-call-accepted-when-repeated", fmt.Sprintf("%s was rejected the first time (%s) and accepted when repeated at once", what, first), first, err
 	}
 	if err2.Error() != first {
